@@ -1,7 +1,6 @@
 package main
 
 import (
-	"sync"
 	"bytes"
 	"encoding/base64"
 	"encoding/json"
@@ -11,6 +10,7 @@ import (
 	"net/http/httptest"
 	"os"
 	"strings"
+	"sync"
 	"time"
 
 	"github.com/bbva/qed/api/apihttp"
